@@ -176,6 +176,27 @@ func init() {
 	})
 }
 
+func loopNames(body []*Node) []string {
+	var out []string
+	var walk func(n *Node)
+	walk = func(n *Node) {
+		if n == nil {
+			return
+		}
+		if n.K == KLoop && n.Name != "" {
+			out = append(out, n.Name)
+		}
+		for _, k := range n.Kids {
+			walk(k)
+		}
+		walk(n.Body)
+	}
+	for _, n := range body {
+		walk(n)
+	}
+	return out
+}
+
 func TestC05(t *testing.T) {
 	seedNote(t)
 	StartWatchdog("C05", 60*time.Second)
@@ -184,6 +205,7 @@ func TestC05(t *testing.T) {
 	rapid.Check(t, func(t *rapid.T) {
 		f := AllModelFeatures
 		f.CapBias = true
+		f.NamedLoops = true
 		depth := rapid.IntRange(1, 3).Draw(t, "depth")
 		globals, body := GenBodyProgram(t, f, depth)
 		rich := rapid.IntRange(0, 1).Draw(t, "rich") == 0
@@ -197,6 +219,8 @@ func TestC05(t *testing.T) {
 			body = append([]*Node{lead}, body...)
 		}
 		caps := captureNames(body, globals...)
+		// the name of a named loop holds a table, not text: as a with-item it contributes nothing
+		caps = append(caps, loopNames(body)...)
 		prog := &Program{Globals: globals}
 		nt := rapid.IntRange(0, 2).Draw(t, "ntransforms")
 		if rich && nt == 0 {
